@@ -152,6 +152,7 @@ class Generated:
         self.items = []
         self.hash = None
         self.monotone_injected = 0
+        self.anchor_skipped = {}   # fid -> reason (function left out of this run because an anchor was lost)
 
 
 def scan_trusted(text, fname):
@@ -343,7 +344,20 @@ def assemble(repo=REPO, mutate_hook=None, only_units=None, canary=False, skip=()
             if fs.fid in skip:
                 fs.external = True
                 fs.skipped = True
-            g = genmod.build_fn(fs, repo, eff, tkeys.keys(), canary=canary and not fs.external)
+            try:
+                g = genmod.build_fn(fs, repo, eff, tkeys.keys(), canary=canary and not fs.external)
+            except AnchorLost as e:
+                if fs.external:
+                    raise
+                # per-function degradation for a lost anchor / an unsupported loop shape: the function is left out of this run
+                # (contract kept as an assumption for its callers); only the properties with obligations in it become undecided
+                fs.external = True
+                fs.skipped = True
+                G.anchor_skipped[fs.fid] = str(e)[:200]
+                try:
+                    g = genmod.build_fn(fs, repo, eff, tkeys.keys(), canary=False)
+                except AnchorLost:
+                    raise e
             G.fns[fs.fid] = g
             emit = fs.emit if fs.emit is not None else fs.scope
             if emit == 'free':
@@ -541,6 +555,14 @@ def classify(G, res):
                 oid = pick[0]['oid']
         elif clause_oid is not None:
             oid = clause_oid
+        if oid is None and 'decreases' in msg and summary['spans']:
+            # the span is the loop head; the obligation is that loop's `decreases` clause, which follows the head in the generated text
+            ln0 = min(sp['gen_line'] for sp in summary['spans'])
+            for ln in range(ln0, min(len(G.linemap), ln0 + 80)):
+                f2, o2 = G.linemap[ln - 1]
+                if o2[0] == 'ob' and '/decreases#' in str(o2[1]) and (body_fid is None or f2 == body_fid):
+                    oid = o2[1]
+                    break
         if oid is None:
             if body_fid is not None:
                 oid = body_fid + '/safety'
